@@ -107,6 +107,7 @@ func (ex *Exec) writerEnd(kind string, call int, acked bool) {
 func (ex *Exec) readerTask(id int, budget int) {
 	c := ex.conc
 	defer func() { c.readersEnd++ }()
+	var reuseL raft.Log
 	for n := 0; n < budget && !ex.stop(); n++ {
 		if c.writerDone && n >= 2 {
 			break
@@ -163,7 +164,14 @@ func (ex *Exec) readerTask(id int, budget int) {
 			op.Idx = idx
 			var l raft.Log
 			op.Call = ex.tick()
-			err := ex.callR(func() error { return w.GetLog(idx, &l) })
+			err := ex.callR(func() error {
+				if id%2 == 1 { // odd readers decode into one re-used destination and keep shallow copies (seeded C12i)
+					e := w.GetLog(idx, &reuseL)
+					l = reuseL
+					return e
+				}
+				return w.GetLog(idx, &l)
+			})
 			switch {
 			case err == nil:
 				op.Found = true
